@@ -168,20 +168,30 @@ def run(tier):
         "the protocol model variant used for verdicts is the one the recorded traces show the code implements",
     ]
     vlib.build_lib()
-    models = c19_planners.Models(tier)
-    models.start()          # TLC jobs of the planner protocol models run in the background
+    hooked = c19_planners.planner_hooks_present()
+    if not hooked:
+        # the guarded hook commit for the planners (.work/c19-hooks.patch) is not in the tree under test: the layer that
+        # looks inside the planners cannot be bound to the code and is left out (said in the evidence, not an alarm)
+        log("[c19] planner hooks absent in %s: planner-internals layer not run" % vlib.REPO)
+        ck.set("planner_internals", "NOT RUN: planner hooks (OMPL_VERIF lock/access events in pRRT/pSBL/PRM/CForest/APS) are not in the tree under test")
+    models = c19_planners.Models(tier) if hooked else None
+    if models:
+        models.start()          # TLC jobs of the planner protocol models run in the background
+    names = [("conc", "-O2"), ("planners", "-O1")] + ([("concplan", "-O1")] if hooked else [])
     with concurrent.futures.ThreadPoolExecutor(max_workers=3) as ex:
-        fb = {n: ex.submit(build_harness, n, True, None, (), "plain", o) for n, o in (("conc", "-O2"), ("planners", "-O1"), ("concplan", "-O1"))}
+        fb = {n: ex.submit(build_harness, n, True, None, (), "plain", o) for n, o in names}
         protocol_models(ck)
-        binary, pbin, cbin = fb["conc"].result(), fb["planners"].result(), fb["concplan"].result()
+        binary, pbin = fb["conc"].result(), fb["planners"].result()
+        cbin = fb["concplan"].result() if hooked else None
     with concurrent.futures.ThreadPoolExecutor(max_workers=2) as ex:
         f1 = ex.submit(surface, ck, tier, binary)
-        feats = c19_planners.planner_traces(ck, tier, cbin)
+        feats = c19_planners.planner_traces(ck, tier, cbin) if hooked else None
         f1.result()
     log("[c19] surface + planner traces done at %.0fs" % (__import__("time").time() - ck.t0))
     mt_planners(ck, tier, pbin)
     log("[c19] sampled multi-threaded planner contract done at %.0fs" % (__import__("time").time() - ck.t0))
-    models.judge(ck, feats)
+    if models:
+        models.judge(ck, feats)
     return ck.finish()
 
 
